@@ -627,4 +627,6 @@ func (w *addrWorld) observeFresh() []string {
 
 func (w *addrWorld) finalProbe() []string { return w.dryRun(w.mgr) }
 
+func (w *addrWorld) followUp() []string { return nil }
+
 func (w *addrWorld) dump() string { return dumpDB(w.db, addrNS) }
